@@ -444,6 +444,18 @@ impl World {
             "eval_load" => {
                 let fm = self.frozen(f)?.dupe();
                 let local = format!("l{}_{}", k, nj);
+                if c {
+                    // the load statement goes on to a symbol that does not exist: it fails after `local`
+                    // is bound, and the module is used further
+                    let src = format!("load(\"m{}\", {} = \"{}\", zz_{} = \"no_such_symbol_\")\n", f, local, src_name, nj);
+                    let a = self.open(k)?;
+                    match a.done(Cmd::Eval { src, loads: vec![(format!("m{}", f), fm)] }) {
+                        Err(e) if e.starts_with("eval:") => {}
+                        Err(e) => return Err(e),
+                        Ok(()) => return Err("harness: a load of a missing symbol succeeded".to_owned()),
+                    }
+                    return a.done(Cmd::Eval { src: wrap_src(k, nj, how, &local), loads: Vec::new() });
+                }
                 let src = format!(
                     "load(\"m{}\", {} = \"{}\")\n{}",
                     f,
